@@ -65,7 +65,8 @@ func VerifCheck_clock() {
 	jit := int64(verifParamInt("jitter_ns"))
 	tick := int64(1 << 20)
 	hist := verifSplitComma(verifParam("history"))
-	verifConcurrent(verifParamInt("preempt"), false, func() {
+	pre := verifParamInt("preempt")
+	verifConcurrent(0, false, func() {
 		clockPeriod = period
 		d := time.Duration(verifIntSet("d", verifParam("ddom")))
 		p := int64(period)
@@ -74,7 +75,9 @@ func VerifCheck_clock() {
 			case "timed":
 				// a timed match: deadline made now, polled at an arbitrary later instant
 				t0 := verifNow()
+				verifPreempt(pre) // the clock goroutine may run between any two synchronisation operations of makeDeadline
 				dl := makeDeadline(d)
+				verifPreempt(0)
 				wait := time.Duration(verifIntSet("wait"+strconv.Itoa(i), verifParam("waitdom")))
 				time.Sleep(wait)
 				r := dl.reached()
@@ -89,6 +92,19 @@ func VerifCheck_clock() {
 					// it does fire
 					verifAssert("timeout-fires", el < int64(d)+3*p+2*jit+2*tick)
 				}
+			case "conc2":
+				// two timed matches with different timeouts start at the same moment in two goroutines
+				d2 := d + 1500*time.Millisecond
+				var dl1, dl2 fasttime
+				verifPreempt(2) // pre-emptions only while the two deadlines are being made
+				verifGo(func() { dl1 = makeDeadline(d) })
+				verifGo(func() { dl2 = makeDeadline(d2) })
+				verifWaitAll()
+				verifPreempt(0)
+				verifAssert("no-false-timeout-concurrent", !dl1.reached() && !dl2.reached())
+				time.Sleep(d2 + 3*period + time.Duration(4*jit))
+				verifAssert("concurrent-deadlines-both-fire", dl1.reached() && dl2.reached())
+				verifReach("concurrent-deadlines")
 			case "quick":
 				// a match that finishes well inside d never reports a timeout
 				dl := makeDeadline(d)
